@@ -133,9 +133,11 @@ Call(op, f, x, y, o, u, e) == [op |-> op, f |-> f, x |-> x, y |-> y, o |-> o, u 
 \* generic copying families (frame-only: T does not transcribe their results, P1_NoMut is evaluated on every live object):
 \*   gufunc  f = any binary ufunc, e = form: "call" np.f(x, y) | "op" the Python operator | "reduce" | "accumulate" | "outer"
 \*   gunary  f = unary ufunc np.f(x)        garrfn f = array function of (x, y)        gmethod f = ndarray method / reduction of x
+\*   After a generic copying call the harness OVERWRITES every element of the returned object(s): an input that changes
+\*   then shared its memory with a result that is documented to be new.
 GOps == {"gufunc", "gunary", "garrfn", "gmethod"}
 CopyOps == GOps \cup {"in_units", "to", "to_value", "in_base", "in_cgs", "in_mks", "to_equivalent", "binop", "ufunc", "unary", "copy",
-            "concatenate", "dot", "clip", "umul", "udiv", "upow", "ubase", "ucoeff", "ucopy", "usimplify", "units_simplify"}
+            "concatenate", "dot", "clip", "aunit", "umul", "udiv", "upow", "ubase", "ucoeff", "ucopy", "usimplify", "units_simplify"}
 InplaceOps == {"convert_to_units", "convert_to_base", "convert_to_cgs", "convert_to_mks", "convert_to_equivalent",
                "iop", "ufunc_out", "unary_out", "setitem0", "setitemall", "copyto", "put", "putmask", "fill_diagonal", "gin"}
 \* gin = generic in-place family (frame-only: T does not transcribe it; P2/P3/P4 are evaluated on the observation):
@@ -351,6 +353,20 @@ Apply(S, c) ==
          ELSE IF ~BcOk(LenOf(S, x), Len(YNums(S, y))) THEN Raise(S)
          ELSE LET L == BcLen(LenOf(S, x), Len(YNums(S, y))) IN
               Ok(S, Obj(IF L = 1 /\ S[x].k = "Q" /\ YScalar(S, y) THEN "Q" ELSE "A", S[x].dt, S[x].u, Bc(YNums(S, y), L)))
+    \* arithmetic of an array / quantity with a Unit OBJECT (f: "mul" x * U, "rmul" U * x, "div" x / U, "rdiv" U / x):
+    \* Unit.__mul__ / __rtruediv__ copy the data and attach the product unit; U / x is quantity(1, U) / x through the ufunc
+    [] c.op = "aunit" ->
+         LET uu == S[y].u IN
+         IF c.f \in {"mul", "rmul"} THEN
+            LET ur == UMul(S[x].u, uu) IN
+            IF ~ur.ok THEN Raise(S) ELSE Ok(S, Obj(S[x].k, S[x].dt, ur.u, S[x].n))
+         ELSE IF c.f = "div" THEN
+            \* x * U**-1 : Unit.__pow__ refuses an offset unit
+            IF HasOff(uu) THEN Raise(S)
+            ELSE LET ur == UMul(S[x].u, U(DScale(uu.dim, -1), NDiv(ROne, uu.sc), RZero, "?")) IN
+                 IF ~ur.ok THEN Raise(S) ELSE Ok(S, Obj(S[x].k, S[x].dt, ur.u, S[x].n))
+         ELSE LET r == Binary("div", <<ROne>>, uu, "f8", S[x].n, S[x].u, S[x].dt, FALSE, S[x].k = "Q") IN
+              IF r.ex THEN Raise(S) ELSE Ok(S, ResObj(r))
     [] c.op \in {"umul", "udiv"} ->
          LET r == IF c.op = "umul" THEN UMul(S[x].u, S[y].u) ELSE UDiv(S[x].u, S[y].u) IN
          IF ~r.ok THEN Raise(S) ELSE Ok(S, Obj("U", "", r.u, <<>>))
@@ -371,7 +387,7 @@ Apply(S, c) ==
 Enabled(S, c) ==
   /\ Live(S, c.x)
   /\ (c.op \in {"umul", "udiv", "upow", "ubase", "ucoeff", "ucopy", "usimplify"}) = (S[c.x].k = "U")
-  /\ c.y # "" => (IF c.op \in {"umul", "udiv"} THEN c.y \in {"U1", "U2"} /\ Live(S, c.y) ELSE YLive(S, c.y))
+  /\ c.y # "" => (IF c.op \in {"umul", "udiv", "aunit"} THEN c.y \in {"U1", "U2"} /\ Live(S, c.y) ELSE YLive(S, c.y))
   /\ c.o # "" => (Live(S, c.o) /\ S[c.o].k = "A")
   /\ c.op = "fill_diagonal" => (LenOf(S, c.x) = 4 /\ S[c.x].k = "A")
   /\ c.op \in {"copyto", "concatenate", "dot"} => c.y # "two"
